@@ -112,11 +112,19 @@ func c16Release(p *c16Proxy) {
 	}
 }
 
-func c16Blobs(op sim.Op, step int) [][]byte {
+func c16Blobs(op sim.Op, step int, limit uint64) [][]byte {
 	n := int(op.A % 6)
 	var out [][]byte
 	for j := 0; j < n; j++ {
 		size := []int{0, 1, 30, 59, 60, 61, 100, 200}[(int(op.B)+j*3)%8]
+		if limit > 100000 {
+			// the production limit: blobs of real size (requests of megabytes cross the wire base64-encoded)
+			l := int(limit)
+			size = []int{0, 1, l / 3, l - 1, l, l + 1, l / 2, 3 * l / 4}[(int(op.B)+j*3)%8]
+			if n > 3 {
+				n = 3
+			}
+		}
 		b := bytes.Repeat([]byte{byte('a' + j)}, size)
 		if size >= 8 {
 			copy(b, fmt.Sprintf("%03d-%d:", step, j))
@@ -190,7 +198,7 @@ func c16Run(t *testing.T, s *sim.Scn) *sim.Outcome {
 				d2.Plant(h, b, "other")
 			}
 		case "submit", "submit-cancelled":
-			blobs := c16Blobs(op, i)
+			blobs := c16Blobs(op, i, limit)
 			if len(blobs) == 0 {
 				// the client answers an empty submission itself; a scripted outcome would be consumed by the
 				// direct instance only and desynchronise the two backing stores (a harness artefact)
@@ -305,6 +313,11 @@ func compareStores(a, b *sim.SimDA) string {
 func c16Gen(r *rand.Rand, tier string) *sim.Scn {
 	s := &sim.Scn{Cfg: map[string]int64{"limit": []int64{60, 100, 250}[r.IntN(3)], "empty": r.Int64N(3), "auto": r.Int64N(2)}}
 	n := 4 + r.IntN(26)
+	if r.IntN(12) == 0 {
+		// the production size limit (the client's built-in default) and blobs of that order
+		s.Cfg["limit"] = 1974272
+		n = 3 + r.IntN(6)
+	}
 	pErr := r.IntN(60)
 	for i := 0; i < n; i++ {
 		switch x := r.IntN(100); {
